@@ -126,6 +126,15 @@ func adversarial(quick bool) []cell {
 			}
 		}
 	}
+	// an include whose name collides with a definition of the including file
+	for _, inc := range []string{"Foo", "foo", "FOO"} {
+		for _, dn := range []string{"Foo", "foo", "FOO"} {
+			for _, kind := range []string{"struct %s { 1: optional i32 a }", "enum %s { A }", "const i32 %s = 1", "service %s { void f() }", "typedef i32 %s"} {
+				out = append(out, cell{Name: fmt.Sprintf("adv%d", len(out)), Class: "collide:include-vs-definition:" + inc + "/" + dn, Root: "t.thrift",
+					Files: map[string]string{inc + ".thrift": "struct Inner { 1: optional i32 v }\n", "t.thrift": fmt.Sprintf("include \"./%s.thrift\"\n"+kind+"\nstruct Uses { 1: optional %s.Inner i }\n", inc, dn, inc)}})
+			}
+		}
+	}
 	// generated helper names colliding with user types
 	for _, n := range []string{"S_F_Args", "S_F_Result", "S_F_Helper", "_List_I32_ValueList", "Default_S", "E_Values", "SClient", "ThriftModule", "S_f_Args"} {
 		add("collide:helper", n, fmt.Sprintf("struct %s { 1: optional i32 a }\nstruct S { 1: optional list<i32> l }\nenum E { A }\nservice S2 { void F(1: i32 a) }\nservice SS { void f() }", n))
